@@ -25,3 +25,77 @@ package align
 //@     invariant forall a int, b int :: has(result, key2(a, b)) <==> (seen(key2(a, b)) || seen(key2(b, a)))
 //@     invariant forall a int, b int :: seen(key2(a, b)) ==> result[key2(a, b)] == m[key2(a, b)] && result[key2(b, a)] == m[key2(a, b)]
 //@     invariant forall a int, b int :: seen(key2(a, b)) && a != b && has(m, key2(b, a)) ==> m[key2(a, b)] == m[key2(b, a)]
+
+// ---- dynamic programming (C08, C09) ----
+// Scores are reals (float64 idealised); i/bn, i%bn and an*bn are the
+// uninterpreted idiv/imod/imul of /verif/specs/05arith.spec. cellG / cellL /
+// stepsOK are defined in /verif/specs/50align.spec from the documented scoring.
+
+//@ func decideOnStep
+//@   props C08 C09
+//@   ensures midOK(result.score, result.step, mch, del, ins)
+
+//@ func argmax
+//@   props C08 C09
+//@   requires len(blocks) >= 1
+//@   ensures 0 <= result && result < len(blocks)
+//@   ensures forall c int :: 0 <= c && c < len(blocks) ==> blocks[c].score <= blocks[result].score
+//@   loop 1
+//@     invariant 0 <= imax && imax < len(blocks)
+//@     invariant forall c int :: 0 <= c && c < i ==> blocks[c].score <= blocks[imax].score
+
+//@ func Global
+//@   props C08 C09
+//@   let G := 255
+//@   requires has(m, key2(G, G))
+//@   requires forall p int :: 0 <= p && p < len(a) ==> has(m, key2(a[p], G))
+//@   requires forall q int :: 0 <= q && q < len(b) ==> has(m, key2(G, b[q]))
+//@   requires forall p int, q int :: 0 <= p && p < len(a) && 0 <= q && q < len(b) ==> has(m, key2(a[p], b[q]))
+//@   loop 1
+//@     invariant an == len(a) + 1 && bn == len(b) + 1 && len(blocks) == imul(an, bn)
+//@     invariant forall c int :: 0 <= c && c < i ==> cellG(fieldarr(blocks, score), fieldarr(blocks, step), a, b, bn, mapval(m), c)
+//@     invariant forall c int :: i <= c && c < len(blocks) ==> blocks[c].score == 0.0 && blocks[c].step == 0
+//@     splitvar c == i - 1
+
+//@ func traceAlignmentSteps
+//@   props C08 C09
+//@   requires bn >= 1 && len(blocks) >= 1
+//@   requires forall c int :: 0 < c && c < len(blocks) ==> stepsOK(fieldarr(blocks, step), bn, c)
+//@   ensures result.1 == blocks[len(blocks)-1].score
+//@   loop 1
+//@     invariant 0 <= i && i < len(blocks)
+//@     decreases i
+//@   loop 2
+//@     invariant 0 <= i
+
+//@ func Local
+//@   props C08 C09
+//@   let G := 255
+//@   requires has(m, key2(G, G)) && m[key2(G, G)] <= 0.0
+//@   requires forall p int :: 0 <= p && p < len(a) ==> has(m, key2(a[p], G)) && m[key2(a[p], G)] <= 0.0
+//@   requires forall q int :: 0 <= q && q < len(b) ==> has(m, key2(G, b[q])) && m[key2(G, b[q])] <= 0.0
+//@   requires forall p int, q int :: 0 <= p && p < len(a) && 0 <= q && q < len(b) ==> has(m, key2(a[p], b[q]))
+//@   ensures result.3 >= 0.0
+//@   ensures result.3 == 0.0 ==> len(result.0) == 0
+//@   loop 1
+//@     invariant an == len(a) + 1 && bn == len(b) + 1 && len(blocks) == imul(an, bn)
+//@     invariant forall c int :: 0 <= c && c < i ==> cellL(fieldarr(blocks, score), fieldarr(blocks, step), a, b, bn, mapval(m), c)
+//@     invariant forall c int :: i <= c && c < len(blocks) ==> blocks[c].score == 0.0 && blocks[c].step == 0
+//@     splitvar c == i - 1
+
+//@ func traceAlignmentStepsLocal
+//@   props C08 C09
+//@   requires bn >= 1 && len(blocks) >= 1
+//@   requires forall c int :: 0 <= c && c < len(blocks) ==> blocks[c].score >= 0.0
+//@   requires forall c int :: 0 <= c && c < len(blocks) && blocks[c].score > 0.0 ==>
+//@              idiv(c, bn) >= 1 && imod(c, bn) >= 1 && (blocks[c].step == 1 || blocks[c].step == 2 || blocks[c].step == 3)
+//@   ensures result.2 >= 0.0
+//@   ensures result.2 == 0.0 ==> len(result.0) == 0
+//@   ensures 0 <= result.1 && result.1 < len(blocks)
+//@   ensures forall c int :: 0 <= c && c < len(blocks) ==> blocks[c].score <= result.2
+//@   loop 1
+//@     invariant 0 <= i && i < len(blocks) && 0 <= last && last < len(blocks) && 0 <= imax && imax < len(blocks)
+//@     invariant forall c int :: 0 <= c && c < len(blocks) ==> blocks[c].score <= blocks[imax].score
+//@     decreases i
+//@   loop 2
+//@     invariant 0 <= i
